@@ -20,7 +20,7 @@ theorem C08_noIdle_partial (env : Env) (f0 : Uid → Fields) (res0 : List (Optio
 theorem C08_encode_partial (env : Env) (f0 : Uid → Fields) (res0 : List (Option Nat × Cal)) (o : Output)
     (hf : env.flagsOK) (hc : env.clockOK) (hb : ∀ k, dayOf (env.clock k) < dayOf env.bound)
     (h : forwardCalc env f0 res0 = .ok o) : c08Encode env f0 o = true := by
-  sorry
+  exact C08.encode_partial env f0 res0 o hb h
 
 /-- among leaves that take part in no dependency (neither themselves nor through an ancestor) capacity is handed out
     in WBS order: the usage rows of an earlier one all precede those of a later one -/
@@ -32,12 +32,22 @@ theorem C08_order (env : Env) (f0 : Uid → Fields) (res0 : List (Option Nat × 
 theorem C08_noIdle_full_fails :
     ∃ o, forwardCalc Witness.kfS3C08Env Witness.kfS3C08F0 Witness.kfS3C08Res = .ok o ∧
       c08NoIdle Witness.kfS3C08Env Witness.kfS3C08F0 o = false := by
-  sorry
+  have h : (match forwardCalc Witness.kfS3C08Env Witness.kfS3C08F0 Witness.kfS3C08Res with
+      | .ok o => c08NoIdle Witness.kfS3C08Env Witness.kfS3C08F0 o == false
+      | .error _ => false) = true := by decide +kernel
+  cases hr : forwardCalc Witness.kfS3C08Env Witness.kfS3C08F0 Witness.kfS3C08Res with
+  | ok o => rw [hr] at h; exact ⟨o, rfl, by simpa using h⟩
+  | error e => rw [hr] at h; cases h
 
 /-- the full encoding statement fails with the clock on the project start day (findings/KF-S6-C08.json) -/
 theorem C08_encode_full_fails :
     ∃ o, forwardCalc Witness.kfS6C08Env Witness.kfS6C08F0 Witness.kfS6C08Res = .ok o ∧
       c08Encode Witness.kfS6C08Env Witness.kfS6C08F0 o = false := by
-  sorry
+  have h : (match forwardCalc Witness.kfS6C08Env Witness.kfS6C08F0 Witness.kfS6C08Res with
+      | .ok o => c08Encode Witness.kfS6C08Env Witness.kfS6C08F0 o == false
+      | .error _ => false) = true := by decide +kernel
+  cases hr : forwardCalc Witness.kfS6C08Env Witness.kfS6C08F0 Witness.kfS6C08Res with
+  | ok o => rw [hr] at h; exact ⟨o, rfl, by simpa using h⟩
+  | error e => rw [hr] at h; cases h
 
 end Pj
